@@ -1,8 +1,20 @@
-from yaml import SafeDumper
+from decimal import Decimal
+
+from yaml import SafeDumper, SafeLoader
 
 
 class SnowfakeryDumper(SafeDumper):
     pass
+
+
+# Decimal values (e.g. fake.pydecimal) round-trip through continuation files
+SnowfakeryDumper.add_representer(
+    Decimal,
+    lambda dumper, value: dumper.represent_scalar("!snowfakery_decimal", str(value)),
+)
+SafeLoader.add_constructor(
+    "!snowfakery_decimal", lambda loader, node: Decimal(loader.construct_scalar(node))
+)
 
 
 def hydrate(cls, data):
